@@ -33,7 +33,7 @@ from infretis.core import tis
 class Spec:
     def __init__(self, B=3, workers=1, moves=None, cap=None, maxlength=12, alphabet="sh",
                  engine_layout="single", seed=0, steps=10**6, scripted=True, real_store=False,
-                 n_jumps=None, restart_at=None, delete_old=False, extra=None, rich=False):
+                 n_jumps=None, restart_at=None, delete_old=False, extra=None, rich=False, labels=None):
         self.B = B
         self.workers = workers
         self.moves = moves or ["sh"] * B
@@ -49,10 +49,14 @@ class Spec:
         self.delete_old = delete_old
         self.extra = extra or {}  # further scenario.build keywords (lambda_minus_one, quantis, ...)
         self.rich = rich  # accepted paths span two trajectory files, reversed frames, energies, aux files
+        # path numbers are labels: start the closure from a state of a long-running simulation
+        # (adversarial labels such as 1, 10, 11, 100 — one a substring/prefix of another)
+        self.labels = labels
 
     def key(self):
         return (self.B, self.workers, tuple(self.moves), self.cap, self.maxlength, self.alphabet,
-                self.engine_layout, self.seed, repr(sorted(self.extra.items())), self.delete_old)
+                self.engine_layout, self.seed, repr(sorted(self.extra.items())), self.delete_old,
+                tuple(self.labels) if self.labels else None)
 
     def __repr__(self):
         return (f"Spec(B={self.B}, W={self.workers}, moves={self.moves}, cap={self.cap}, "
@@ -152,8 +156,24 @@ class L1Run:
         # instance so that snapshots (deepcopy) do not share it (one instance per
         # process in production, so this changes nothing observable)
         st.traj_data = st.traj_data
+        if spec.labels:
+            self._relabel(spec.labels)
         for o in self.obs:
             o.on_setup(self)
+
+    def _relabel(self, labels):
+        """Give the initial live paths the numbers a long-running simulation would have
+        (only possible without trajectory files on disk)."""
+        st = self.state
+        assert not self.spec.real_store
+        old = st.live_paths()
+        m = dict(zip(old, labels))
+        for t in st._trajs[:-1]:
+            t.path_number = m[t.path_number]
+        st.traj_data = {m[k]: v for k, v in st.traj_data.items()}
+        st.config["current"]["active"] = [m[k] for k in st.config["current"]["active"]]
+        st.config["current"]["traj_num"] = max(labels) + 1
+        st._last_prob = None
 
     def clone(self, chooser):
         """Snapshot of the live run (state, in-flight jobs, observers) bound to a new chooser."""
@@ -585,7 +605,7 @@ def spec_to_json(spec):
     return dict(B=spec.B, workers=spec.workers, moves=spec.moves, cap=spec.cap, maxlength=spec.maxlength,
                 alphabet=spec.alphabet, engine_layout=spec.engine_layout, seed=spec.seed, steps=spec.steps,
                 n_jumps=spec.n_jumps, extra=spec.extra, rich=spec.rich, delete_old=spec.delete_old,
-                real_store=spec.real_store)
+                real_store=spec.real_store, labels=spec.labels)
 
 
 def spec_from_json(d):
